@@ -2077,8 +2077,9 @@ where
         loop {
             // safety: see argument below for !is_null case
             if table.is_null() || unsafe { table.deref() }.is_empty() {
-                table = self.init_table(guard);
-                continue;
+                // no table means no entries: the key cannot be present, and a lookup-like call
+                // must not be what allocates the table (only inserts and reservations grow it)
+                return None;
             }
 
             // safety: table is a valid pointer.
